@@ -212,26 +212,6 @@ Section Main.
     unfold clampMinLevel, clampMaxLevel, clampLevelMod. rewrite !minInt1, !maxInt1. lia.
   Qed.
 
-  (** level conditions that survive Normalize and are re-established by Denormalize *)
-  Definition good_level (minL md M L : Z) : Prop := minL <= L <= M /\ (L - minL) mod md = 0.
-
-  Local Ltac Zify.zify_post_hook ::= Z.div_mod_to_equations.
-  Lemma denorm_level_good : forall minL md M L, 0 <= minL <= 30 -> 1 <= md <= 3 -> 0 <= L <= 30 -> M <= 30 ->
-    (exists G, good_level minL md M G /\ L <= G) -> good_level minL md M (denorm_level minL md L).
-  Proof.
-    intros minL md M L Hmin Hmd HL HM (G & (HG1 & HG2) & HLG). unfold good_level, denorm_level.
-    set (nl := if L <? minL then minL else L).
-    assert (Hnl : minL <= nl <= G /\ L <= nl) by (unfold nl; destruct (Z.ltb_spec L minL); lia).
-    clearbody nl.
-    destruct (Z.gtb_spec md 1) as [Hgt|Hle].
-    - (* rounding up to the next level congruent to minL stays at or below G *)
-      assert (Hmd23 : md = 2 \/ md = 3) by lia.
-      destruct Hmd23 as [-> | ->]; rewrite Z.rem_mod_nonneg by lia;
-        match goal with |- context [?a >? 30] => destruct (Z.gtb_spec a 30) end;
-        (split; [|]); lia.
-    - assert (md = 1) by lia. subst md. split; [lia|]. apply Z.mod_1_r.
-  Qed.
-
   Section Results.
   Variable rc : opts.
   Hypothesis HVB : ValidB.
